@@ -177,6 +177,9 @@ def truth(interp, v):
     if isinstance(v, SOpaque) and getattr(v, "pytype", None) in (str, bytes):
         # an opaque text is true iff it is not empty
         return wrap((clen(v.e) if v.pytype is str else blen(v.e)) > 0)
+    if isinstance(v, SOpaque) and getattr(v, "pytype", None) is None and v.e.sort() == _Elem:
+        # the truth value of an opaque value is an (uninterpreted) function of that value
+        return wrap(z3.Function("truth_of", _Elem, z3.BoolSort())(v.e))
     if isinstance(v, Sym):
         raise eng.Unsupported(f"truth of {type(v).__name__}")
     if isinstance(v, np.ndarray):
